@@ -12,7 +12,7 @@
 (* partial: outside the domain the properties quantify over the slot is     *)
 (* Unspec and only C01 (some slot, no panic) applies.                       *)
 (***************************************************************************)
-EXTENDS Env, Duration, TLC
+EXTENDS Env, Clock, TLC
 
 ArithMeaning(toks) ==
   IF DateLike(toks) THEN Unspec
@@ -40,6 +40,13 @@ LineMeaning(ctx, line) ==
     [] line.form = "dur_arith" -> [slot |-> IF line.op = "+" THEN DurAdd(SumParts(line.a), SumParts(line.b))
                                             ELSE DurSub(SumParts(line.a), SumParts(line.b)), env |-> ctx.env]
     [] line.form = "dur_as"    -> [slot |-> DurAs(SumParts(line.parts), line.target), env |-> ctx.env]
+    [] line.form = "time_lit"  -> [slot |-> TimeIn(line.w, ZoneOr(line.z, ctx.calc.tz)), env |-> ctx.env]
+    [] line.form = "time_conv" -> [slot |-> ConvertTime(TimeIn(line.w, ZoneOr(line.z, ctx.calc.tz)), line.z2), env |-> ctx.env]
+    [] line.form = "time_shift" -> [slot |-> ShiftTime(TimeIn(line.w, ZoneOr(line.z, ctx.calc.tz)), line.op, SumParts(line.parts)),
+                                    env |-> ctx.env]
+    [] line.form = "time_diff" ->
+         LET z1 == ZoneOr(line.z, ctx.calc.tz)  z2 == ZoneOr(line.z2, ctx.calc.tz) IN
+         [slot |-> IF NoWrap(line.w, z1) /\ NoWrap(line.w2, z2) THEN DiffTime(line.w, z1, line.w2, z2) ELSE Unspec, env |-> ctx.env]
     [] line.form = "shape"   -> [slot |-> Unspec, env |-> ctx.env]
     [] OTHER                 -> [slot |-> Unspec, env |-> ctx.env]
 
@@ -68,7 +75,10 @@ RunLines(ctx, lines, acc) ==
 
 \* agreement of an observed slot with a specified one, including the "expected to fail" marker
 \* the printed form of a value, where a property speaks about it (C10: the parts of a duration)
-PrintMatches(exp, obs) == (exp.k = "dur" /\ Has(obs, "parts")) => obs.parts = DurParts(exp)
-WithPrint(v) == IF v.k = "dur" THEN v @@ [parts |-> DurParts(v)] ELSE v
+PrintMatches(exp, obs) ==
+  /\ (exp.k = "dur" /\ Has(obs, "parts")) => obs.parts = DurParts(exp)
+  /\ (exp.k = "time" /\ Has(obs, "pr")) => obs.pr = TimePrinted(exp)
+WithPrint(v) == IF v.k = "dur" THEN v @@ [parts |-> DurParts(v)]
+                ELSE IF v.k = "time" THEN v @@ [pr |-> TimePrinted(v)] ELSE v
 SlotMatches(exp, obs) == IF exp.k = "fails" THEN obs.k \in SlotKinds ELSE Matches(exp, obs) /\ PrintMatches(exp, obs)
 =============================================================================
